@@ -1,8 +1,10 @@
 SPECIFICATION Spec
 CONSTANTS
   Cfgs <- CfgsThorough
-  Horizons = {20000, 31000, 60000}
+  Horizons = {31000, 60000}
   ChangeTo <- ChangeThorough
   MaxCh = 1
+  TieBudget = 4
+  ChangeBy = 10
 INVARIANTS TypeOK StampIsNow StateIsCurrent NoTimeLost Monotone Paired ImuRate MagRate ImuPeriodExact MagPeriodExact NeverFaster Counts LoopPeriod
 CHECK_DEADLOCK FALSE
